@@ -6,10 +6,22 @@ use crate::query::Query;
 impl Query for Filter {
     fn process<'a, T: Queryable>(&self, state: State<'a, T>) -> State<'a, T> {
         let root = state.root;
+        match &state.data {
+            Data::Ref(p) if p.is_internal() => {
+                State::data(root, Data::Value(self.filter_item(p.clone(), root).into()))
+            }
+            _ => self.filter_children(state),
+        }
+    }
+}
+
+impl Filter {
+    /// Applies the filter as a selector: keeps the children of every input node
+    /// for which the logical expression holds.
+    pub(crate) fn filter_children<'a, T: Queryable>(&self, state: State<'a, T>) -> State<'a, T> {
+        let root = state.root;
         state.flat_map(|p| {
-            if p.is_internal() {
-                Data::Value(self.filter_item(p, root).into())
-            } else if let Some(items) = p.inner.as_array() {
+            if let Some(items) = p.inner.as_array() {
                 Data::Refs(
                     items
                         .into_iter()
